@@ -1517,6 +1517,345 @@ class C02(Spec):
         return None
 
 
+
+# ---------------------------------------------------------------------------
+# C18 -- rimupy output is the ordered concatenation of trusted and untrusted renders
+
+VALUE_OPTS = {'--output': 'out', '-o': 'out', '--prepend': 'prepend', '-p': 'prepend', '--prepend-file': 'pfile',
+              '--safe-mode': 'mode', '--safeMode': 'mode', '--html-replacement': 'repl', '--htmlReplacement': 'repl',
+              '--theme': 'macro', '--title': 'macro', '--lang': 'macro', '--layout': 'layout', '--styled-name': 'layout'}
+FLAG_MACROS = ['--highlightjs', '--mathjax', '--section-numbers', '--toc', '--no-toc', '--sidebar-toc', '--dropdown-toc',
+               '--custom-toc', '--header-ids', '--header-links']
+LAYOUTS = ['classic', 'flex', 'plain', 'sequel', 'v8']
+
+
+def cli_plan(argv, files, rimurc):
+    """The documented pipeline: ('usage', msg) or a dict with the ordered inputs [(source, mode, verbatim, name)]."""
+    args = list(argv)
+    mode = None
+    repl = None
+    layout = ''
+    prepend = ''
+    pfiles = []
+    out = ''
+    passthru = False
+    no_rc = False
+    fmap = dict((os.path.normpath(p), c) for p, c in files)
+    while args:
+        a = args.pop(0)
+        if a in ('--help', '-h', '--version'):
+            return ('info', a)
+        if a in ('--lint', '-l'):
+            continue
+        if a == '--pass':
+            passthru = True
+            continue
+        if a == '--no-rimurc':
+            no_rc = True
+            continue
+        if a in ('--styled', '-s'):
+            prepend += "{--header-ids}='true'\n{--no-toc}='true'\n"
+            layout = 'sequel'
+            continue
+        if a in FLAG_MACROS:
+            prepend += "{%s}='true'\n" % a
+            continue
+        if a in VALUE_OPTS:
+            if not args:
+                return ('usage', 'missing option value')
+            v = args.pop(0)
+            k = VALUE_OPTS[a]
+            if k == 'out':
+                out = v
+            elif k == 'prepend':
+                prepend += v + '\n'
+            elif k == 'pfile':
+                pfiles.append(v)
+            elif k == 'mode':
+                try:
+                    mode = int(v)
+                except ValueError:
+                    return ('usage', 'illegal safe-mode')
+                if not 0 <= mode <= 15:
+                    return ('usage', 'illegal safe-mode')
+            elif k == 'repl':
+                repl = v
+            elif k == 'macro':
+                prepend += "{%s}='%s'\n" % (a, v)
+            elif k == 'layout':
+                if v not in LAYOUTS:
+                    return ('usage', 'unknown layout')
+                layout = v
+                prepend += "{--header-ids}='true'\n"
+            continue
+        args.insert(0, a)
+        break
+    named = args or ['-']
+    if len(named) == 1 and layout and named[0] != '-' and not out:
+        out = os.path.splitext(named[0])[0] + '.html'
+    inputs = []
+    trusted = []
+    if not no_rc and rimurc is not None:
+        trusted.append(('file', '~/.rimurc', rimurc))
+    for pf in pfiles:
+        trusted.append(('pfile', pf, None))
+    for kind, name, content in trusted:
+        if kind == 'pfile':
+            if os.path.normpath(name) not in fmap:
+                return ('usage-late', 'missing input file')
+            content = fmap[os.path.normpath(name)]
+        inputs.append((content, 0, name.endswith('.html'), name))
+    if prepend:
+        inputs.append((prepend, 0, False, '--prepend options'))
+    return {'inputs': inputs, 'layout': layout, 'named': named, 'mode': mode, 'repl': repl, 'out': out, 'pass': passthru,
+            'fmap': fmap, 'pfiles': [os.path.normpath(x) for x in pfiles]}
+
+
+class C18(Spec):
+    level_text = ('Refinement to a plan, for the modelled I/O. Proved over the model of rimuc.main: C18_plan_order (the inputs are processed in '
+                  'the order ~/.rimurc, prepend files, --prepend text, layout header, named inputs or stdin, layout footer), C18_usage_errors '
+                  '(missing option value, unknown layout, illegal --safe-mode give exit 1 with exactly one message and no output), '
+                  'C18_exit_iff_errors (after a completed run exit is 1 iff a diagnostic was written), C18_trusted_mode0 (resources, prepends and '
+                  'prepend files are rendered at mode 0). The model is tied to the code by argument-vector x file-system cases compared on '
+                  'stdout, stderr, exit status and output file; byte decoding and permissions are not modelled.')
+    rule = ('argument vectors over every option (legal/illegal safe modes, replacement, 5 layouts + unknown, styling shortcuts, 0-2 prepends '
+            'and prepend files, 0-3 inputs of .rmu/.html/missing kinds, stdin, --pass, -o, missing values) x generated file contents; run '
+            'in-process with patched argv/stdin/HOME in a scratch directory; oracle = the pipeline replayed through rimu.render; '
+            'non-trivial = at least one input is rendered')
+    state_keys = []
+    timeout = 30
+    DOCS = ['# Title\n\nText *em* <b>raw</b>.', 'plain', '{undef} text', "{--header-ids}='1'\n## H", '<div>\nblock\n</div>', '',
+            '.cls\npara {x}', '- a\n- b', '``\ncode\n``', "{x}='X'", '..\nunterminated', '  \n ', '<p>html file</p>\n']
+
+    def gen_cli(self, rng):
+        argv = []
+        files = []
+        for _ in range(rng.randint(0, 5)):
+            r = rng.random()
+            if r < 0.2:
+                argv += [rng.choice(['--safe-mode', '--safeMode']), rng.choice(['0', '1', '2', '3', '5', '9', '15', '16', '-1', 'abc', '3.5', ' 7 '])]
+            elif r < 0.3:
+                argv += [rng.choice(['--html-replacement', '--htmlReplacement']), rng.choice(['REPL', '', '<i>x</i>'])]
+            elif r < 0.4:
+                argv += ['--layout', rng.choice(LAYOUTS + ['bogus', 'plain', 'plain'])]
+            elif r < 0.5:
+                argv += [rng.choice(['--prepend', '-p']), rng.choice(["{x}='PX'", 'prepended *text*', "{--header-ids}='y'", '<b>p</b>'])]
+            elif r < 0.6:
+                n = 'pre%d.rmu' % len(files)
+                argv += ['--prepend-file', n]
+                if rng.random() < 0.85:
+                    files.append([n, rng.choice(self.DOCS)])
+            elif r < 0.65:
+                argv += [rng.choice(['--output', '-o']), rng.choice(['out.html', '-', 'o/x.txt'])] if rng.random() < 0.9 else ['-o']
+            elif r < 0.7:
+                argv.append('--pass')
+            elif r < 0.75:
+                argv.append('--no-rimurc')
+            elif r < 0.85:
+                argv.append(rng.choice(FLAG_MACROS + ['--styled', '-s', '--lint']))
+            elif r < 0.9:
+                argv += [rng.choice(['--title', '--lang', '--theme']), rng.choice(['T', 'en', 'dark'])]
+            elif r < 0.93:
+                argv.append(rng.choice(['--bogus', '--layout', '--title']))
+            else:
+                argv.append(rng.choice(['--version', '--help'])) if rng.random() < 0.3 else None
+        argv = [a for a in argv if a is not None]
+        for j in range(rng.choice([0, 1, 1, 1, 2, 3])):
+            if rng.random() < 0.15:
+                argv.append('-')
+                continue
+            n = 'in%d%s' % (j, rng.choice(['.rmu', '.rmu', '.html', '', '.txt']))
+            argv.append(n)
+            if rng.random() < 0.9:
+                files.append([n, rng.choice(self.DOCS)])
+        if 'o/x.txt' in argv:
+            files.append(['o/keep.txt', 'k'])
+        case = {'kind': 'M', 'argv': argv, 'stdin': rng.choice(self.DOCS), 'files': files,
+                'rimurc': rng.choice([None, None, "{rc}='RC'", '{undefrc}'])}
+        return case
+
+    def correspondence(self, ctx):
+        rng = ctx.rng('X')
+        cases = [self.gen_cli(rng) for _ in range(sizes(ctx, 250, 6000))] + gen.saved_corpus('C18')
+        mo = model_run([common.cli_line(c) for c in cases], timeout=120)
+        io_ = impl_run(cases, timeout=self.timeout)
+        out = {'cases': len(cases), 'disagreements': [], 'streams': {'X': {'cases': len(cases), 'disagreements': 0}}, 'skipped': 0,
+               'samples': [{'stream': 'X', 'case': cases[len(cases) // 2]}], 'distinct_nontrivial': 0}
+        seen = set()
+        for c, m, i in zip(cases, mo, io_):
+            r = common.compare_cli(common.parse_cli_output(m), i)
+            h = case_hash(c)
+            if h not in seen:
+                seen.add(h)
+                if i.get('stdout') or i.get('outfile'):
+                    out['distinct_nontrivial'] += 1
+            if r == 'SKIP':
+                out['skipped'] += 1
+            elif r:
+                out['disagreements'].append({'stream': 'X', 'why': r, 'case': c})
+                out['streams']['X']['disagreements'] += 1
+        return out
+
+    def search_cases(self, ctx, boost):
+        rng = ctx.rng('S')
+        return [self.gen_cli(rng) for _ in range(sizes(ctx, 300, 6000) * (3 if boost else 1))]
+
+    def run_oracle(self, ctx, cases):
+        import importlib
+        res = impl_run(cases, timeout=self.timeout)
+        # the pipeline replayed through rimu.render
+        sys_path = os.path.join(common.REPO, 'src')
+        import sys as _sys
+        if sys_path not in _sys.path:
+            _sys.path.insert(0, sys_path)
+        for k in [k for k in _sys.modules if k == 'rimuc' or k.startswith('rimuc.')]:
+            del _sys.modules[k]
+        resources = importlib.import_module('rimuc.resources').resources
+        hist, meta = [], []
+        for c in cases:
+            p = cli_plan(c['argv'], c.get('files', []), c.get('rimurc'))
+            if not isinstance(p, dict):
+                hist.append(None)
+                meta.append(p)
+                continue
+            inputs = list(p['inputs'])
+            usage = None
+            body = []
+            stdin_left = c.get('stdin', '')
+            for n in p['named']:
+                if n == '-':
+                    body.append((stdin_left, p['mode'], p['pass'], '/dev/stdin'))
+                    stdin_left = ''     # standard input is read once
+                else:
+                    key = os.path.normpath(n)
+                    if key not in p['fmap']:
+                        usage = ('usage', 'missing input file')
+                        break
+                    body.append((p['fmap'][key], 0 if key in p['pfiles'] else p['mode'], n.endswith('.html'), n))
+            if p['layout']:
+                inputs.append((resources[p['layout'] + '-header.rmu'], 0, False, 'header'))
+                inputs += body
+                inputs.append((resources[p['layout'] + '-footer.rmu'], 0, False, 'footer'))
+            else:
+                inputs += body
+            p['all'] = inputs
+            p['usage_late'] = usage
+            calls = []
+            for src, mode, verb, name in inputs:
+                if verb:
+                    continue
+                calls.append({'src': src, 'safeMode': mode, 'htmlReplacement': p['repl'], 'cb': True})
+            hist.append({'kind': 'H', 'calls': calls, 'state': False} if calls else None)
+            meta.append(p)
+        hres = impl_run([h for h in hist if h], timeout=self.timeout)
+        it = iter(hres)
+        fails = []
+        nt = 0
+        for c, r, h, p in zip(cases, res, hist, meta):
+            hr = next(it) if h else None
+            try:
+                o = self.cli_oracle(c, r, p, hr)
+            except Exception as e:
+                o = None
+                self._oracle_errors = getattr(self, '_oracle_errors', 0) + 1
+                self._oracle_last_error = repr(e)
+            if r.get('stdout') or r.get('outfile'):
+                nt += 1
+            if o:
+                fails.append({'class': o[0], 'why': o[1], 'case': c})
+        return fails, nt, len(cases)
+
+    def cli_oracle(self, c, r, p, hr):
+        if r.get('timeout'):
+            return None
+        if r.get('status') == 'raise':
+            return ('C18/traceback:' + str(r.get('exn')), 'argv %r: %s %s' % (c['argv'], r.get('exn'), r.get('msg', '')[:100]))
+        if not isinstance(p, dict):
+            if p[0] == 'usage':
+                if r['exit'] != 1:
+                    return ('C18/usage-exit', 'argv %r is invalid (%s) but exit status is %r' % (c['argv'], p[1], r['exit']))
+                if len(r['stderr']) != 1:
+                    return ('C18/usage-message', 'argv %r: expected a one-line message, got %r' % (c['argv'], r['stderr'][:3]))
+                if r['stdout']:
+                    return ('C18/usage-output', 'argv %r: output on an invalid invocation' % (c['argv'],))
+            if p[0] == 'usage-late':
+                # inputs before the missing one may already have produced diagnostics
+                if r['exit'] != 1 or not r['stderr'] or r['stdout']:
+                    return ('C18/usage-exit', 'argv %r: %s but exit %r, stderr %r' % (c['argv'], p[1], r['exit'], r['stderr'][:2]))
+            return None
+        if hr is not None and (hr.get('timeout') or not all(x.get('status') == 'ok' for x in hr.get('calls', []))):
+            return None
+        # usage error found while reading inputs: exit 1 with a message
+        bad = p.get('usage_late')
+        if bad:
+            if r['exit'] != 1 or not r['stderr']:
+                return ('C18/usage-exit', 'argv %r: %s but exit %r, stderr %r' % (c['argv'], bad[1], r['exit'], r['stderr'][:2]))
+            return None
+        parts = []
+        diags = 0
+        k = 0
+        for src, mode, verb, name in p['all']:
+            if verb:
+                t = src
+            else:
+                call = hr['calls'][k]
+                k += 1
+                t = call['html']
+                diags += len([m for m in call['log'] if m[0] == 'error'])
+            t = t.strip()
+            if t:
+                parts.append(t)
+        expected = '\n'.join(parts).strip()
+        got = r['stdout'] if not (p['out'] and p['out'] != '-') else (r['outfile'][1] if r.get('outfile') else None)
+        if got != expected:
+            return ('C18/output', 'argv %r: output %r, the replayed pipeline gives %r' % (c['argv'], str(got)[:200], expected[:200]))
+        if p['out'] and p['out'] != '-':
+            if r['stdout']:
+                return ('C18/output', 'argv %r: output file requested but stdout is not empty' % (c['argv'],))
+            if r.get('outfile') and os.path.normpath(r['outfile'][0]) != os.path.normpath(p['out']):
+                return ('C18/outfile-name', 'argv %r: wrote %r, expected %r' % (c['argv'], r['outfile'][0], p['out']))
+        if (r['exit'] == 1) != (diags > 0):
+            return ('C18/exit-status', 'argv %r: %d diagnostics but exit status %r' % (c['argv'], diags, r['exit']))
+        nmsg = len([l for l in r['stderr'] if l.startswith('error: ')])
+        if nmsg != diags:
+            return ('C18/stderr', 'argv %r: %d diagnostics but %d messages on stderr' % (c['argv'], diags, nmsg))
+        return None
+
+    def check_witness(self, ctx, entry):
+        case = entry.get('witness')
+        if not case:
+            return None
+        fails, _, _ = self.run_oracle(ctx, [case])
+        for f in fails:
+            if entry.get('status') == 'fixed' or f['class'] == entry.get('class'):
+                return f['why']
+        return None
+
+    def explained_by_known(self, ctx, b, known_classes):
+        if b.get('kind') != 'correspondence' or not b.get('case'):
+            return False
+        fails, _, _ = self.run_oracle(ctx, [b['case']])
+        return bool(fails) and all(f['class'] in known_classes for f in fails)
+
+    def replay(self, ctx, rp):
+        case = rp.get('case')
+        if not case:
+            br = rp.get('broken') or []
+            case = next((b.get('case') for b in br if b.get('case')), None)
+            if not case:
+                return None
+        fails, _, _ = self.run_oracle(ctx, [case])
+        if fails:
+            return fails[0]['why']
+        if ctx.model_ok:
+            mo = model_run([common.cli_line(case)], timeout=120)
+            io_ = impl_run([case], timeout=self.timeout)
+            r = common.compare_cli(common.parse_cli_output(mo[0]), io_[0])
+            if r and r != 'SKIP':
+                return 'model and implementation differ: ' + r
+        return None
+
+
 PROPS = {'C01': C01(), 'C02': C02(), 'C03': C03(), 'C04': C04(), 'C05': C05(), 'C06': C06(), 'C07': C07(), 'C08': C08(),
          'C09': C09(), 'C10': C10(), 'C11': C11(), 'C12': C12(), 'C13': C13(), 'C14': C14(), 'C15': C15(), 'C16': C16(),
-         'C17': C17(), 'C19': C19(), 'C20': C20()}
+         'C17': C17(), 'C18': C18(), 'C19': C19(), 'C20': C20()}
